@@ -45,6 +45,10 @@ func Normalize(zone string) (string, error) {
 	if strings.Contains(trimmed, "*") {
 		return "", fmt.Errorf("acme: wildcard zone is not supported")
 	}
+	if certmagic.SubjectIsIP(trimmed) {
+		// public IP literals qualify for a public certificate but are not DNS names
+		return "", fmt.Errorf("acme: ip address is not supported")
+	}
 	uni, err := idna.ToASCII(trimmed)
 	if err != nil {
 		return "", fmt.Errorf("acme: error converting zone to ascii: %w", err)
